@@ -38,17 +38,18 @@ pub struct ProveError { pub _p: () }
 pub struct Traces { pub of: Ghost<Cid> }
 /// committed preprocessed data + AIRs: tagged with the circuit they were derived from
 pub struct CircuitProverData { pub for_circuit: Ghost<Cid> }
-/// Rc<CircuitProverData>
-pub struct RcData { pub for_circuit: Ghost<Cid> }
-pub fn rc_clone(d: &RcData) -> (r: RcData) ensures r.for_circuit@ == d.for_circuit@ { RcData { for_circuit: Ghost(d.for_circuit@) } }
-pub fn rc_new(d: CircuitProverData) -> (r: RcData) ensures r.for_circuit@ == d.for_circuit@ { RcData { for_circuit: Ghost(d.for_circuit@) } }
+/// Rc<CircuitProverData> (the reference count is erased)
+pub type RcData = CircuitProverData;
+pub fn rc_clone(d: &RcData) -> (r: RcData) ensures r.for_circuit@ == d.for_circuit@ { CircuitProverData { for_circuit: Ghost(d.for_circuit@) } }
+pub fn rc_new(d: CircuitProverData) -> (r: RcData) ensures r == d { d }
 /// a batch proof: tagged with the circuit whose traces it proves, the circuit whose preprocessed commitment it carries, and the prover's config
-pub struct BatchStarkProof { pub traces_of: Ghost<Cid>, pub prep_of: Ghost<Cid>, pub cfg: Ghost<int> }
-pub struct BatchStarkProver { pub cfg: Ghost<int> }
+pub struct BatchStarkProof { pub traces_of: Ghost<Cid>, pub prep_of: Ghost<Cid>, pub cfg: Ghost<int>, pub packing: Ghost<int> }
+/// a layer prover: built for one configuration and one table packing / constraint profile
+pub struct BatchStarkProver { pub cfg: Ghost<int>, pub packing: Ghost<int> }
 impl BatchStarkProver {
     #[verifier::external_body]
     pub fn prove_all_tables(&self, traces: &Traces, data: &RcData) -> (r: Result<BatchStarkProof, ProveError>)
-        ensures r matches Ok(p) ==> p.traces_of@ == traces.of@ && p.prep_of@ == data.for_circuit@ && p.cfg@ == self.cfg@
+        ensures r matches Ok(p) ==> p.traces_of@ == traces.of@ && p.prep_of@ == data.for_circuit@ && p.cfg@ == self.cfg@ && p.packing@ == self.packing@
     { unimplemented!() }
 }
 pub struct RecursionOutput(pub BatchStarkProof, pub RcData);
@@ -56,6 +57,8 @@ pub struct RecursionOutput(pub BatchStarkProof, pub RcData);
 pub open spec fn coherent(out: &RecursionOutput, c: &Circuit, config: &Cfg) -> bool {
     out.0.traces_of@ == cid(c) && out.0.prep_of@ == cid(c) && out.1.for_circuit@ == cid(c) && out.0.cfg@ == config.id@
 }
+/// on the uncached path the prover is also the one built for the params of THIS call
+pub open spec fn fresh(out: &RecursionOutput, params: &ProveNextLayerParams) -> bool { out.0.packing@ == params.id@ }
 
 #[derive(Clone, Copy, PartialEq, Eq, Debug, Structural)]
 pub struct AggregationCircuitFingerprint { pub witness_count: u32, pub public_flat_len: usize, pub private_flat_len: usize, pub ops_len: usize }
@@ -79,12 +82,50 @@ pub fn run_layer_circuit(prev: &RecInput, verification_circuit: &Circuit, verifi
 #[verifier::external_body]
 pub fn shape_err<T>(r: Result<T, ProveError>) -> (o: Result<T, VerificationError>) ensures r is Ok == o is Ok, r matches Ok(v) ==> o == Ok::<T, VerificationError>(v)
 { unimplemented!() }
-/// the remainder of the function after the cache-hit block: prepares for THIS circuit with THIS config and proves (ASSUMED; its cache-fill end is the suffix slice)
+pub struct AirsDegrees { pub of: Ghost<Cid>, pub packing: Ghost<int> }
+pub struct Columns { pub of: Ghost<Cid> }
+pub struct Airs { pub of: Ghost<Cid>, pub packing: Ghost<int> }
+pub struct ProverData { pub of: Ghost<Cid>, pub cfg: Ghost<int> }
+pub struct TablePacking { pub _p: () }
+#[derive(Clone, Copy)]
+pub struct ConstraintProfile { pub _p: () }
+pub struct Plugins { pub _p: () }
+impl ProveNextLayerParams {
+    // the two fields the layer provers read; their joint identity is `id`
+    #[verifier::external_body] pub fn table_packing(&self) -> (r: &TablePacking) { unimplemented!() }
+    #[verifier::external_body] pub fn constraint_profile(&self) -> (r: ConstraintProfile) { unimplemented!() }
+}
+impl Backend {
+    #[verifier::external_body] pub fn non_primitive_preprocessors(&self) -> Plugins { unimplemented!() }
+    #[verifier::external_body] pub fn non_primitive_air_builders(&self) -> Plugins { unimplemented!() }
+    #[verifier::external_body] pub fn non_primitive_provers(&self) -> Plugins { unimplemented!() }
+}
+/// get_airs_and_degrees_with_prep(circuit, &params.table_packing, .., params.constraint_profile): AIRs and preprocessed columns OF THIS CIRCUIT under THESE params
+#[verifier::external_body]
+pub fn get_airs_and_degrees_with_prep(c: &Circuit, params: &ProveNextLayerParams, pre: &Plugins, airb: &Plugins) -> (r: Result<(AirsDegrees, Columns, Columns), VerificationError>)
+    ensures r matches Ok(t) ==> t.0.of@ == cid(c) && t.0.packing@ == params.id@ && t.1.of@ == cid(c) && t.2.of@ == cid(c)
+{ unimplemented!() }
+#[verifier::external_body]
+pub fn unzip_(a: AirsDegrees) -> (r: (Airs, Vec<usize>)) ensures r.0.of@ == a.of@ && r.0.packing@ == a.packing@ { unimplemented!() }
+#[verifier::external_body]
+pub fn ext_degrees_(d: &Vec<usize>, config: &Cfg) -> Vec<usize> { unimplemented!() }
+impl ProverData {
+    #[verifier::external_body]
+    pub fn from_airs_and_degrees(config: &Cfg, airs: &Airs, ext: &Vec<usize>) -> (r: ProverData) ensures r.of@ == airs.of@ && r.cfg@ == config.id@ { unimplemented!() }
+}
+impl CircuitProverData {
+    #[verifier::external_body]
+    pub fn new(pd: ProverData, prim: Columns, nonprim: Columns) -> (r: CircuitProverData) ensures r.for_circuit@ == pd.of@ { unimplemented!() }
+}
+/// build_layer_prover(config, &params.table_packing, params.constraint_profile, provers): a prover for THIS config and THESE params
+#[verifier::external_body]
+pub fn build_layer_prover(config: &Cfg, params: &ProveNextLayerParams, provers: Plugins) -> (r: BatchStarkProver) ensures r.cfg@ == config.id@ && r.packing@ == params.id@ { unimplemented!() }
+/// the remainder of the function after the cache-hit block (callee contract here; PROVED as the slice prove_aggregation_layer[miss_path])
 #[verifier::external_body]
 pub fn uncached_tail(left: &RecInput, right: &RecInput, verification_circuit: &Circuit, config: &Cfg, backend: &Backend, params: &ProveNextLayerParams, prep_cache_present: bool,
                      prep_cache: &mut Option<AggregationPrepCache>, current_fp: AggregationCircuitFingerprint) -> (r: Result<RecursionOutput, VerificationError>)
     requires slot_inv(*old(prep_cache)), current_fp == fp_of(cid(verification_circuit))
-    ensures slot_inv(*final(prep_cache)), r matches Ok(out) ==> coherent(&out, verification_circuit, config)
+    ensures slot_inv(*final(prep_cache)), r matches Ok(out) ==> coherent(&out, verification_circuit, config) && fresh(&out, params)
 { unimplemented!() }
 #[verifier::external_body]
 pub fn uncached_tail_next(prev: &RecInput, verification_circuit: &Circuit, verifier_result: &VResult, config: &Cfg, backend: &Backend, params: &ProveNextLayerParams)
@@ -124,7 +165,7 @@ def build():
     fp.ensures('reads_all_four_counters', 'ret == fp_of(cid(circuit))')
 
     def common(f):
-        f.rewrite_re('R11', r'::<[A-Za-z0-9_, ]+>\(', '(', min_count=0)
+        f.rewrite_re('R11', r'::<[A-Za-z0-9_, :]+>\(', '(', min_count=0)
         f.rewrite_re('R8', r'\.map_err\(\|e\| proof_shape_err\(&e\.to_string\(\)\)\)', '.shape_()', min_count=0)
         f.rewrite_re('R8', r'(\w+(?:\s*\.\s*\w+)*\s*\.\s*prove_all_tables\([^;]*?\))\s*\.shape_\(\)', r'shape_err(\1)', flags_dotall=True)
         f.rewrite_re('R11', r'Rc::clone\(&([\w.]+)\)', r'rc_clone(&\1)', min_count=0)
@@ -151,21 +192,28 @@ def build():
             assert(cached.prover.cfg@ == config.id@); // @@A:H_cache_hit_same_config
         }''')
 
-    # ---------------------------------------------------------------- aggregation: the fill
-    fill = u.extract(R, '', 'prove_aggregation_layer', 'prove_aggregation_layer[cache_fill_suffix]')
-    fill.drop_prefix_before('if let Some(ref mut cache_slot) = prep_cache {',
-                            'prefix: guarded hit block (prefix slice) and preparation/proving for this circuit (binds circuit_prover_data, prover, proof, current_fp: parameters here)')
-    fill.set_sig('R11', 'fn prove_aggregation_layer_fill(verification_circuit: &Circuit, config: &Cfg, prep_cache_present: bool, prep_cache: &mut Option<AggregationPrepCache>, '
-                        'current_fp: AggregationCircuitFingerprint, circuit_prover_data: CircuitProverData, prover: BatchStarkProver, proof: BatchStarkProof) -> Result<RecursionOutput, VerificationError>', sliced=True)
+    # ---------------------------------------------------------------- aggregation: the whole miss path (preparation, proving, cache fill)
+    fill = u.extract(R, '', 'prove_aggregation_layer', 'prove_aggregation_layer[miss_path]')
+    fill.drop_prefix_before('let (airs_degrees, primitive_columns, non_primitive_columns) =',
+                            'prefix: the fingerprint and the guarded hit block (prefix slice); current_fp is a parameter here')
+    fill.set_sig('R11', 'fn prove_aggregation_layer_miss(left: &RecInput, right: &RecInput, left_result: &VResult, right_result: &VResult, verification_circuit: &Circuit, config: &Cfg, backend: &Backend, '
+                        'params: &ProveNextLayerParams, prep_cache_present: bool, prep_cache: &mut Option<AggregationPrepCache>, current_fp: AggregationCircuitFingerprint) -> Result<RecursionOutput, VerificationError>', sliced=True)
+    fill.rewrite_re('R11', r'<B as PcsRecursionBackend<SC, A\d, D>>::(\w+)\(backend(?:, D)?\)', r'backend.\1()', min_count=3)
     common(fill)
-    fill.rewrite_re('R11', r'if let Some\(ref mut cache_slot\) = prep_cache \{', 'if prep_cache_present { let cache_slot = prep_cache;', min_count=1)
+    fill.rewrite_re('R11', r'get_airs_and_degrees_with_prep\(\s*verification_circuit,\s*&params\.table_packing,\s*&preprocessors,\s*&air_builders,\s*params\.constraint_profile,?\s*\)\s*\.map_err\(VerificationError::Circuit\)\?',
+                    'get_airs_and_degrees_with_prep(verification_circuit, params, &preprocessors, &air_builders)?', min_count=1, flags_dotall=True)
+    fill.rewrite_re('R6', r'let \(airs, degrees\): \(Vec<_>, Vec<_>\) = airs_degrees\.into_iter\(\)\.unzip\(\);', 'let (airs, degrees) = unzip_(airs_degrees);', min_count=1)
+    fill.rewrite_re('R6', r'let ext_degrees: Vec<usize> = degrees\.iter\(\)\.map\(\|&d\| d \+ config\.is_zk\(\)\)\.collect\(\);', 'let ext_degrees: Vec<usize> = ext_degrees_(&degrees, config);', min_count=1)
+    fill.rewrite_re('R11', r'build_layer_prover\(\s*config,\s*&params\.table_packing,\s*params\.constraint_profile,\s*', 'build_layer_prover(config, params, ', min_count=0, flags_dotall=True)
+    fill.rewrite_re('R11', r'if let Some\(ref mut cache_slot\) = prep_cache \{', 'if prep_cache_present { let cache_slot = &mut *prep_cache;', min_count=1)
     fill.rewrite_re('R11', r'\*\*cache_slot = ', '*cache_slot = ', min_count=1)
-    fill.requires('fresh_data', 'current_fp == fp_of(cid(verification_circuit)) && circuit_prover_data.for_circuit@ == cid(verification_circuit) && prover.cfg@ == config.id@ '
-                                '&& proof.traces_of@ == cid(verification_circuit) && proof.prep_of@ == cid(verification_circuit) && proof.cfg@ == config.id@ && slot_inv(*old(prep_cache))')
+    # R6 (general): `OPT_REF_MUT.as_mut().and_then(|s| s.take())` on the encoded slot
+    fill.rewrite_re('R6', r'prep_cache\.as_mut\(\)\.and_then\(\|(\w+)\| \1\.take\(\)\)', '(if prep_cache_present { prep_cache.take() } else { None })', min_count=0)
+    fill.requires('slot_invariant', 'current_fp == fp_of(cid(verification_circuit)) && slot_inv(*old(prep_cache))')
     fill.ensures('slot_invariant', 'slot_inv(*final(prep_cache))')
-    fill.ensures('slot_filled_for_this_circuit', 'prep_cache_present ==> (*final(prep_cache) matches Some(c) && c.circuit_prover_data.for_circuit@ == cid(verification_circuit) && c.prover.cfg@ == config.id@)')
+    fill.ensures('slot_filled_for_this_circuit', 'ret is Ok && prep_cache_present ==> (*final(prep_cache) matches Some(c) && c.circuit_prover_data.for_circuit@ == cid(verification_circuit) && c.prover.cfg@ == config.id@ && c.prover.packing@ == params.id@)')
     fill.ensures('slot_untouched_without_cache', '!prep_cache_present ==> *final(prep_cache) == *old(prep_cache)')
-    fill.ensures('result_belongs_to_this_call', 'ret matches Ok(out) ==> coherent(&out, verification_circuit, config)')
+    fill.ensures('a_miss_is_a_full_recompute_for_this_call', 'ret matches Ok(out) ==> coherent(&out, verification_circuit, config) && fresh(&out, params)')
 
     # ---------------------------------------------------------------- next layer: the unguarded hit block
     nx = u.extract(R, '', 'prove_next_layer', 'prove_next_layer[cache_hit_prefix]')
